@@ -377,3 +377,56 @@ def ret_assignments(body):
             else:
                 out.append((it, "call:%s" % short_callee(it.resolved)))
     return out
+
+
+# ---------------------------------------------------------------------------------- controlling conditions
+def controlling_edges(body, bb, start=0):
+    """switch edges every path from `start` to `bb` must traverse: list of (switch_term, target, label)"""
+    dom = body.dominators()
+    out = []
+    for d in sorted(dom.get(bb, ())):
+        t = body.blocks[d].term
+        if t.kind != "switch" or d == bb:
+            continue
+        for tgt, label in body.edges(d):
+            reach = body.reachable(start, removed_edges={(d, tgt)})
+            if bb not in reach:
+                # several labels may share a target; only report when this edge is the single way
+                same = [l for tg, l in body.edges(d) if tg == tgt]
+                if len(same) == 1:
+                    out.append((t, tgt, label))
+    return out
+
+
+def describe_cond(body, term, label):
+    """human/keyable description of a controlling edge: e.g. 'call:Segments::is_empty=true', 'field:ThisPoll.transport_pending=true',
+    'discr:Option(call:our_fin_if_unacked)=None'"""
+    c, neg = switch_cond(body, term)
+    be = bool_edges(body, term.bb)
+
+    def pol():
+        if label[0] == "val":
+            v = label[1] != 0
+        else:
+            v = 0 in label[1]
+        return (not v) if neg else v
+
+    if c.kind == "call":
+        return "call:%s=%s" % (short_callee(c.call.resolved), "true" if pol() else "false")
+    if c.kind == "field":
+        return "field:%s=%s" % (c.trace.last_field, "true" if pol() else "false")
+    if c.kind == "discr":
+        vals = enum_variant_values(body.facts, c.enum) or {}
+        if label[0] == "val":
+            var = vals.get(label[1], str(label[1]))
+        else:
+            rest = [n for v, n in vals.items() if v not in label[1]]
+            var = "|".join(rest)
+        return "discr:%s=%s" % (c.trace.describe(), var)
+    if c.kind == "bin":
+        ta = trace(body, c.a)
+        tb = trace(body, c.b)
+        return "bin:%s(%s,%s)=%s" % (c.op, ta.describe(), tb.describe(), "true" if pol() else "false")
+    if c.kind in ("var", "multi"):
+        return "var:%s=%s" % (c.trace.describe(), "true" if pol() else "false")
+    return "other"
